@@ -110,6 +110,24 @@ def run(chk, ctx) -> None:
     chk.floor('C07.graph', 10)
     from .cover import handover_last
     handover_last(chk, ctx, 'C07.handover_once')
+    # a voluntary show is legal after the last street is closed (pots being pushed or pulled, a fold-out): the showdown step then only
+    # logs it - ending the showdown a second time, or running its automation, is for the showdown phase proper
+    us = ms['_update_showdown']
+    live = T.spec('self.street is not None', boolean=True)
+    stray = []
+    n_act = 0
+    for p in ctx.paths(us):
+        acts = [e for e in p.events if e.kind == 'call' and e.value[0] == 'self' and e.value[1] != '_update']
+        if not acts:
+            continue
+        n_act += 1
+        k = p.events.index(acts[0])
+        before = {c2 for x in p.events[:k] if x.kind == 'assume' for c2 in conjuncts(unversion(x.term))}
+        if live not in before:
+            stray.append(acts[0])
+    chk.ob('C07.graph', 'State._update_showdown:past_the_streets', n_act > 0 and not stray, ctx.loc(us, stray[0].node) if stray else us.loc,
+           'once the last street is closed the showdown step only records the operation: it ends the showdown, or runs its automation, '
+           'only while a street is open', got=[stmt_text(e.node, 60) for e in stray[:2]] or f'{n_act} acting path(s)')
     for name in ms:
         if name.startswith('_end_') and name not in GRAPH:
             chk.ob('C07.graph', f'State.{name}', False, ms[name].loc, 'phase end that is not in the documented phase graph')
